@@ -47,7 +47,7 @@ def r_traversals(ck: Checker) -> None:
         late = late_bound_deferred(trav)
         if late:
             ck.violation("R-WORKLIST", trav, trav.node, f"{trav.qualname}: no deferred group reads a loop variable after it is rebound",
-                         construct=f"{trav.qualname}: {late}")
+                         positive=True, construct=f"{trav.qualname}: {late}")
             return
     for mode, exp in (({"bottom_up": False}, "pre-order"), ({"bottom_up": True}, "post-order")):
         m = check_worklist(ck, dfs, mode, exp, legacy=True)
